@@ -164,6 +164,8 @@ func vrEvents(seed int64, n int) []vrEvent {
 }
 
 type vrSystem struct {
+	eagerL2  func(types.NamespacedName) // when set: the status event is handed over synchronously (see TestVerifNotifySpeaker)
+	eagerBGP func(string)
 	c      *controller
 	ann    *layer2.Announce
 	bgp    *fakeBGP
@@ -202,6 +204,10 @@ func vrNewSystem(t *testing.T, evs []vrEvent) *vrSystem {
 		DisableLayer2: true, // layer2.New would open real sockets; the layer-2 handler is wired below as newController does
 		bgpType:       bgpNative,
 		BGPAdsChangedCallback: func(k string) {
+			if s.eagerBGP != nil {
+				s.eagerBGP(k)
+				return
+			}
 			select {
 			case s.bgpevt <- k:
 			default:
@@ -218,6 +224,10 @@ func vrNewSystem(t *testing.T, evs []vrEvent) *vrSystem {
 		myNode:    vrNode,
 		sList:     &fakeSpeakerList{speakers: map[string]bool{vrNode: true}},
 		onStatusChange: func(nn types.NamespacedName) {
+			if s.eagerL2 != nil {
+				s.eagerL2(nn)
+				return
+			}
 			select {
 			case s.l2evts <- nn:
 			default:
@@ -472,4 +482,117 @@ func vrRound(t *testing.T, out *vOut, seed int64, round int, raw map[string]bool
 			map[string]any{"seed": seed, "workers": workers, "raw_handlers": os.Getenv("VERIF_RAW_HANDLERS"), "schedule": sched})
 	}
 	out.Case(round, "speaker-round", "tt", map[string]any{"seed": seed, "workers": workers, "events": len(evs), "state": got})
+}
+
+// ---------------------------------------------------------------- notifications vs. state (eager status reconcilers)
+
+// TestVerifNotifySpeaker: handler effects are atomic with respect to the independent status
+// reconcilers.  As in speaker/main.go a handler hands a status event over an UNBUFFERED channel;
+// the consumer here is EAGER: it runs at once — before the handler goes on — queries the real
+// fetcher (GetStatus / PeersForService, which need only the component's own lock) and remembers
+// the LAST value it published.  Events (announce, re-announce with changed interfaces, moved
+// address, withdrawals, config and node changes) are delivered through the real Listener
+// wrappers; after every handler (nothing pending) the last published status of every service
+// must be the state the handlers left.
+func TestVerifNotifySpeaker(t *testing.T) {
+	out := vOpen()
+	defer out.Close()
+	r := vRand()
+	rounds := vN(3)
+	for round := 0; round < rounds; round++ {
+		seed := r.Int63()
+		nev := 200
+		if vThorough() {
+			nev = 1500
+		}
+		evs := vrEvents(seed, nev)
+		sys := vrNewSystem(t, evs)
+		type l2evt struct {
+			nn   types.NamespacedName
+			done chan struct{}
+		}
+		type bgpevt struct {
+			key  string
+			done chan struct{}
+		}
+		l2ch, bgpch := make(chan l2evt), make(chan bgpevt) // unbuffered, as l2StatusChan / bgpStatusChan
+		stop := make(chan struct{})
+		var mu sync.Mutex
+		pubL2, pubBGP := map[string]string{}, map[string]string{}
+		l2view := func(nn types.NamespacedName) string {
+			advs := sys.c.layer2StatusFetchFunc(nn)
+			if len(advs) == 0 {
+				return ""
+			}
+			adv := advs[0] // what Layer2StatusReconciler.buildDesiredStatus uses
+			if adv.IsAllInterfaces() {
+				return "announced on all interfaces"
+			}
+			return "announced on " + strings.Join(sets.List(adv.GetInterfaces()), ",")
+		}
+		bgpview := func(key string) string { return strings.Join(sets.List(sys.c.bgpPeersFetcher(key)), ",") }
+		go func() {
+			for {
+				select {
+				case <-stop:
+					return
+				case e := <-l2ch:
+					v := l2view(e.nn)
+					mu.Lock()
+					pubL2[e.nn.String()] = v
+					mu.Unlock()
+					close(e.done)
+				case e := <-bgpch:
+					v := bgpview(e.key)
+					mu.Lock()
+					pubBGP[e.key] = v
+					mu.Unlock()
+					close(e.done)
+				}
+			}
+		}()
+		sys.eagerL2 = func(nn types.NamespacedName) {
+			e := l2evt{nn, make(chan struct{})}
+			l2ch <- e
+			<-e.done // the reconciler wins the race with the rest of the handler
+		}
+		sys.eagerBGP = func(k string) {
+			e := bgpevt{k, make(chan struct{})}
+			bgpch <- e
+			<-e.done
+		}
+		var sched []string
+		bad := false
+		for _, e := range evs {
+			sys.deliver(e, nil)
+			sched = append(sched, fmt.Sprintf("%d:%s", e.ID, e.What))
+			out.Stat("notify_speaker_events", 1)
+			for _, name := range vrSvcNames {
+				parts := strings.Split(name, "/")
+				nn := types.NamespacedName{Namespace: parts[0], Name: parts[1]}
+				mu.Lock()
+				gotL2, gotBGP := pubL2[nn.String()], pubBGP[name]
+				mu.Unlock()
+				if now := l2view(nn); now != gotL2 && !bad {
+					bad = true
+					out.Fail("c20-status-stale-l2", fmt.Sprintf("after %q (no status event pending) the last published layer-2 status of %s is %q but the state left by the handlers is %q: the notification was sent before the state it announces was in place, or not at all", e.What, name, gotL2, now),
+						map[string]any{"seed": seed, "schedule": sched, "how": "./check C20 (TestVerifNotifySpeaker: eager consumer on the unbuffered status channel)"})
+				} else if now != "" {
+					out.Stat("notify_speaker_l2_announced_checks", 1)
+				}
+				if now := bgpview(name); now != gotBGP && !bad {
+					bad = true
+					out.Fail("c20-status-stale-bgp", fmt.Sprintf("after %q the last published BGP peers of %s are %q but the state left by the handlers is %q", e.What, name, gotBGP, now),
+						map[string]any{"seed": seed, "schedule": sched})
+				} else if now != "" {
+					out.Stat("notify_speaker_bgp_peers_checks", 1)
+				}
+			}
+			if bad {
+				break
+			}
+		}
+		close(stop)
+		out.Case(round, "notify-speaker", "tt", map[string]any{"seed": seed, "events": len(evs)})
+	}
 }
